@@ -695,6 +695,12 @@ func (s *Sim) settle(quiet time.Duration) {
 				all = false
 			}
 		}
+		// Close called by the schedule: its connections die asynchronously until Close has returned
+		if s.closed {
+			if cl := s.actors[ActCloser]; cl != nil && !cl.finished {
+				all = false
+			}
+		}
 		idle := time.Since(s.lastMove)
 		s.mu.Unlock()
 		if all && todo == 0 {
